@@ -682,3 +682,37 @@ package commonmark
 //@ func IsEmailAddress
 //@   ensures[regex] result <==> Email(s)
 //@   serves C15, C04
+
+// ---------------------------------------------------------------------------
+// Walk (C18).  User callbacks: ChildCount and Child are pure and
+// deterministic; Pre and Post may do anything except write library memory.
+// apply(f, args...) is the result of the pure callback f.
+// ---------------------------------------------------------------------------
+
+//@ callback pure func(Node) int ensures result >= 0
+//@ callback pure func(Node, int) Node
+//@ callback impure func(*Cursor) bool
+
+//@ func Walk
+//@   requires !isnil(opts)
+//@   callsite func(Node) int: requires[childcount] $f == (opts.ChildCount != nil ? opts.ChildCount : funcval("(Node).ChildCount$thunk"))
+//@   callsite func(Node, int) Node: requires[child] $f == (opts.Child != nil ? opts.Child : funcval("(Node).Child$thunk"))
+//@   callsite func(*Cursor) bool: requires[callee] curr.post ? $f == opts.Post : $f == opts.Pre
+//@   callsite func(*Cursor) bool: requires[cursor] (*$0).node == curr.Cursor.node && (*$0).parent == curr.Cursor.parent
+//@       && (*$0).block == curr.Cursor.block && (*$0).index == curr.Cursor.index
+//@   callsite func(*Cursor) bool: requires[wf] (curr.Cursor.parent.ptr == nil && curr.Cursor.parent.typ == 0 && curr.Cursor.index < 0)
+//@       || (0 <= curr.Cursor.index && curr.Cursor.index < apply(childCount, curr.Cursor.parent)
+//@           && curr.Cursor.node == apply(getChild, curr.Cursor.parent, curr.Cursor.index))
+//@   loop 0: invariant[cursor] !isnil(cursor) && !isnil(opts) && fresh(cursor) && fresh(stack)
+//@   loop 0: invariant[frame] framed()
+//@   loop 0: invariant[wf] forall k in [0, len(stack)): (stack[k].Cursor.parent.ptr == nil && stack[k].Cursor.parent.typ == 0 && stack[k].Cursor.index < 0)
+//@       || (0 <= stack[k].Cursor.index && stack[k].Cursor.index < apply(childCount, stack[k].Cursor.parent)
+//@           && stack[k].Cursor.node == apply(getChild, stack[k].Cursor.parent, stack[k].Cursor.index))
+//@   loop 1: invariant[cursor] !isnil(cursor) && !isnil(opts) && fresh(cursor) && fresh(stack) && i < apply(childCount, curr.Cursor.node)
+//@   loop 1: invariant[frame] framed()
+//@   loop 1: invariant[wf] forall k in [0, len(stack)): (stack[k].Cursor.parent.ptr == nil && stack[k].Cursor.parent.typ == 0 && stack[k].Cursor.index < 0)
+//@       || (0 <= stack[k].Cursor.index && stack[k].Cursor.index < apply(childCount, stack[k].Cursor.parent)
+//@           && stack[k].Cursor.node == apply(getChild, stack[k].Cursor.parent, stack[k].Cursor.index))
+//@   loop 1: decreases i + 1
+//@   unclaimed dec:0 termination of the traversal relies on the tree being finite and acyclic (DESIGN 4.3)
+//@   serves C18, C04
